@@ -134,6 +134,36 @@ pub fn check_case(c: &Case, info: &mut CaseInfo) -> Result<(), Failure> {
                 return Err(fail("value-differs", format!("wrote {:?} as {:?}, read {:?}", want, Bytes::new(&text[..]), got)));
             }
         }
+        "saved" => {
+            // the real writer: the value becomes an object of a new document, which is built, loaded and resolved
+            use pdf::build::{CatalogBuilder, PageBuilder, PdfBuilder};
+            use pdf::object::{Resolve, Updater};
+            let built = panics::catch(|| -> Result<(u64, Vec<u8>), pdf::error::PdfError> {
+                let mut b = PdfBuilder::new(pdf::file::FileOptions::uncached());
+                let r = b.storage.create(prim.clone())?;
+                let id = r.get_ref().get_inner().id;
+                let bytes = b.build(CatalogBuilder::from_pages(vec![PageBuilder::from_content(pdf::content::Content::from_ops(vec![]), &pdf::object::NoResolve)?]))?;
+                Ok((id, bytes))
+            });
+            let (id, bytes) = match built {
+                Err(p) => return Err(panic_failure(&p, art())),
+                Ok(Err(e)) => return Err(fail("save-error", format!("building a document holding {:?} failed: {:?}", c.value, e))),
+                Ok(Ok(x)) => x,
+            };
+            let file = pdf::file::FileOptions::uncached().load(bytes.clone()).map_err(|e| fail("saved-file-does-not-load", format!("{:?}; value {:?}", e, c.value)))?;
+            let resolver = file.resolver();
+            let got = resolver.resolve(pdf::object::PlainRef { id, gen: 0 }).map_err(|e| fail("parse-error", format!("object {} of the saved document: {:?}; value {:?}", id, e, c.value)))?;
+            let got = from_primitive(&got, Some(&resolver)).map_err(|m| fail("stream-data", m))?;
+            let mut want = c.value.clone();
+            if let Val::Stream(d, data) = &mut want {
+                d.retain(|(k, _)| k.as_slice() != b"Length");
+                d.push((Bytes::from("Length"), Val::Int(data.len() as i64)));
+            }
+            info.sample = Some(json!({"context": c.context, "document_len": bytes.len()}));
+            if canon(&got) != canon(&want) {
+                return Err(fail("value-differs", format!("created {:?}, the saved document holds {:?}", want, got)));
+            }
+        }
         "dict-value" | "array-element" => {
             let wrapped = if c.context == "dict-value" {
                 let mut d = Dictionary::new();
@@ -242,11 +272,11 @@ pub fn case_strategy() -> impl Strategy<Value = Case> {
             Val::Stream(d, Bytes(data))
         }),
     ];
-    (value, 0usize..6, (1u64..100000, prop_oneof![4 => Just(0u64), 1 => 0u64..65536])).prop_map(|(value, ctx, id)| {
-        let contexts = ["whole", "indirect", "dict-value", "array-element", "operand-scn", "operand-bdc"];
+    (value, 0usize..7, (1u64..100000, prop_oneof![4 => Just(0u64), 1 => 0u64..65536])).prop_map(|(value, ctx, id)| {
+        let contexts = ["whole", "indirect", "dict-value", "array-element", "operand-scn", "operand-bdc", "saved"];
         let mut context = contexts[ctx];
         let mut value = value;
-        if matches!(value, Val::Stream(..)) {
+        if matches!(value, Val::Stream(..)) && context != "saved" {
             context = "indirect";
         }
         if context.starts_with("operand") && !content_ok(&value) {
@@ -256,7 +286,7 @@ pub fn case_strategy() -> impl Strategy<Value = Case> {
             // BDC/DP properties are a name or a dictionary
             value = Val::Dict(vec![(Bytes::from("V"), value)]);
         }
-        if context != "whole" && context != "indirect" && value.depth() >= 19 {
+        if context != "whole" && context != "indirect" && context != "saved" && value.depth() >= 19 {
             context = "whole";
         }
         Case { context: context.to_string(), value, id }
@@ -327,4 +357,4 @@ fn fix_ctx_and_check(c: &Case, info: &mut CaseInfo) -> Result<(), Failure> {
     check_case(&c, info)
 }
 
-pub const RULE: &str = "cases = (Primitive tree, placement): generated trees (all 256 byte values in strings, Unicode names and keys, boundary integers/reals, bushy depth<=5, thin chains to depth 19, streams) serialised with the library and placed as indirect-object body exactly as save() writes it, dictionary value, array element, SCN/scn operands and BDC/DP properties via serialize_ops; plus exhaustively every 1-byte string, every 2-byte string and every Unicode scalar as a name and as a key; oracle = parse(serialize(v)) == v up to Integer/Real identification, serialize never panics; non-trivial = value has an atom needing escaping, a fractional or >=2^31 real, or a container; distinct by case";
+pub const RULE: &str = "cases = (Primitive tree, placement): generated trees (all 256 byte values in strings, Unicode names and keys, boundary integers/reals, bushy depth<=5, thin chains to depth 19, streams) serialised with the library and placed as indirect-object body as save() frames it, as an object created in a new document that is built by the library, loaded and resolved (placement 'saved': the real writer), dictionary value, array element, SCN/scn operands and BDC/DP properties via serialize_ops; plus exhaustively every 1-byte string, every 2-byte string and every Unicode scalar as a name and as a key; oracle = parse(serialize(v)) == v up to Integer/Real identification, serialize never panics; non-trivial = value has an atom needing escaping, a fractional or >=2^31 real, or a container; distinct by case";
